@@ -476,9 +476,10 @@ Section Join.
           rewrite RN. reflexivity. }
         rewrite Ra, Rb. cbn [obind].
         pose proof (Scratch SK (ka1 ++ [p_nullmark_left P ka1]) (kb1 ++ [p_nullmark_right P kb1]) NS HS) as SC. cbn [SK map fst snd] in SC.
+        change (@nil string ++ [n_nullkey sn]) with [n_nullkey sn].
         rewrite SC. exact (Core _ _ Hon).
       + rewrite Ka, Kb. cbn [obind].
         pose proof (Scratch [] ka1 kb1 (NoDup_nil _) (fun n (H : In n []) => match H with end)) as SC. cbn [map fst snd fold_left] in SC.
-        rewrite !app_nil_r in SC. rewrite SC. exact (Core _ _ Hon).
+        rewrite !app_nil_r in SC. cbn [fold_left]. rewrite SC. exact (Core _ _ Hon).
   Qed.
 End Join.
